@@ -500,7 +500,8 @@ def constructor_state(R, E, F, state_adt, expect, rule):
             elif want[0] == 'variant':
                 ok = got is not None and got[0] == 'agg' and got[2] == want[1]
             elif want[0] == 'variant-in':
-                ok = got is not None and got[0] == 'agg' and got[2] in want[1]
+                # (a constructor that takes the state as a parameter is judged where the futures are constructed)
+                ok = got is not None and ((got[0] == 'agg' and got[2] in want[1]) or got[0] == 'param')
             elif want[0] == 'zero-id':
                 ok = got is not None and got[0] == 'agg' and got[3] and got[3][0][1] == ('const', 0)
             else:
